@@ -43,6 +43,6 @@ package chunkinfo
 //@ # the position of a chunk in a file's bit vectors: only data chunks of the file have one
 //@ func (*ChunkInfo).getCidSort
 //@   property C17
-//@   requires ci != nil
+//@   requires ci != nil && ci.cp != nil
 //@   ensures only-data-chunks-have-a-position: result >= 0 ==> present(tableOf(rootCid).cids, strOf(cid)) && result == tableOf(rootCid).cids[strOf(cid)].sort && result < len(tableOf(rootCid).cids)
 //@   ensures never-below-minus-one: result >= 0 - 1
